@@ -273,6 +273,23 @@ func ruleW7(c *Ctx) {
 	c.expectMin("W7", 1)
 }
 
+// W8: the fingerprint trusts Hdr.Type; a header it does not fingerprint must not be classified as one it does. The
+// classification table is exactly the documented one (shared with C16-H1): no extra name maps onto a fingerprinted type.
+func ruleW8(c *Ctx) {
+	t := &Ctx{Prog: c.Prog, Prop: c.Prop}
+	ruleH1(t)
+	n := 0
+	for _, o := range t.obls {
+		if strings.HasPrefix(o.Key, "H1:hdr") {
+			o.Key = "W8:" + strings.TrimPrefix(o.Key, "H1:")
+			o.Rule = "W8"
+			c.obls = append(c.obls, o)
+			n++
+		}
+	}
+	c.check(n >= 19, "W8", "table-rows", token.NoPos, fmt.Sprintf("%d header-table obligations shared from C16-H1 (frozen minimum 19)", n))
+}
+
 func init() {
 	register(&PropDef{
 		ID: "C19",
@@ -281,6 +298,7 @@ func init() {
 			{"W2", "first occurrence only: the contribution block is guarded by !seen.Test(type) and starts with seen.Set(type); a value is read only for Via; replies return no signature first (W4)", ruleW2},
 			{"W3", "tables: the eight fingerprinted headers, ids below the compact bit and within one hex digit, one HdrSig slot per header, compact bit iff name length 1, Contact only for INVITE, at most eight entries, explicit truncation indication", ruleW3},
 			{"W5", "text rendering: every table index in MsgSig.String is discharged by the index-guard rules (masked with 0xf, or the named HdrSig exception)", ruleW5},
+			{"W8", "insertion / removal of other headers: the signature reads Hdr.Type, and the name->type table is exactly the documented 19 pairs (shared with C16-H1), so no other header name is classified as a fingerprinted type", ruleW8},
 			{"W7", "array-size independence at the source: ParseHeaders stores a header in the caller's array exactly when N < len(Hdrs) (C13-K4), so a message whose header count equals the capacity is fingerprinted from all of its headers", ruleW7},
 			{"W6", "Via branch extraction: flag set, branch name test, magic prefix; its index/slice expressions are guarded", ruleW6},
 		},
